@@ -241,8 +241,8 @@ Print Assumptions C15_cdm_step_partial.
 (* lifted by induction over species, pixels along the transfer direction and lines: any frame (columns for
    the parallel direction, rows for the serial one), any number of species, traps empty at the start *)
 Theorem C15_cdm_partial : forall P : cdm_par,
-  (forall i k, 0 <= gam P i k) -> (forall a, thr < a -> 0 <= pw P a) ->
-  (forall k a, 0 <= pcap P k a <= 1) -> (forall k, 0 <= rel P k <= 1) ->
+  (forall i k, 0 <= gam P i k) -> (forall i k a, thr < a -> 0 <= pw P i k a) ->
+  (forall i k a, 0 <= pcap P i k a <= 1) -> (forall k, 0 <= rel P k <= 1) ->
   forall nsp lines, Forall nonneg lines ->
   Forall2 (fun li lo => nonneg lo /\ length lo = length li /\ qsum lo <= qsum li) lines (cdm_run P nsp lines)
   /\ qsum (map qsum (cdm_run P nsp lines)) <= qsum (map qsum lines).
@@ -254,12 +254,24 @@ Print Assumptions C15_cdm_partial.
 (* the traps hand charge to LATER packets only: no prefix of a line (in transfer order) ends with more charge
    than that prefix received - the line total is the last prefix *)
 Theorem C15_cdm_prefix_partial : forall P : cdm_par,
-  (forall i k, 0 <= gam P i k) -> (forall a, thr < a -> 0 <= pw P a) ->
-  (forall k a, 0 <= pcap P k a <= 1) -> (forall k, 0 <= rel P k <= 1) ->
+  (forall i k, 0 <= gam P i k) -> (forall i k a, thr < a -> 0 <= pw P i k a) ->
+  (forall i k a, 0 <= pcap P i k a <= 1) -> (forall k, 0 <= rel P k <= 1) ->
   forall nsp lines, Forall nonneg lines ->
   Forall2 (fun li lo => forall m, qsum (firstn m lo) <= qsum (firstn m li)) lines (cdm_run P nsp lines).
 Proof. intros P H1 H2 H3 H4 nsp lines Hl. apply cdm_run_prefix; assumption. Qed.
 Print Assumptions C15_cdm_prefix_partial.
+
+(* ANY beta, tied to the implementation: the power / exponential factors enter as the table of values numpy
+   evaluates at every (packet, species) of every line - whatever they are, as long as they lie in their ranges (which
+   the case files check with `table_ok`) - and the bookkeeping is the model's.  Every line: nothing negative, same
+   length, and no prefix (hence not the total either) above what it received. *)
+Theorem C15_cdm_any_beta_table_partial : forall gs rs inj tbls lines,
+  nonneg gs -> Forall (fun r => 0 <= r <= 1) rs -> match inj with Some n => 0 <= n | None => True end ->
+  forallb table_ok tbls = true -> length tbls = length lines -> Forall nonneg lines ->
+  Forall2 (fun li lo => nonneg lo /\ length lo = length li /\ (forall m, qsum (firstn m lo) <= qsum (firstn m li)))
+          lines (cdm_run_each (map (cdm_par_table gs rs inj) tbls) (length gs) lines).
+Proof. exact cdm_table_run_ok. Qed.
+Print Assumptions C15_cdm_any_beta_table_partial.
 
 (* the range checks of the wrapper, as read from the source (finding C15-cdm-nan, repaired by `fix: cdm rejects a
    zero 'max_electron_volume' and a zero full well capacity`): exactly the documented ranges with the two divisors
@@ -329,6 +341,14 @@ Example ex_persist_three_species_clipped :
   let sp := simple_species 2 [1; 1; 4] [1 # 2; 1 # 4; 1 # 8] (Some [8; 4; 2]) in
   let r := persist_steps [(0, sp); (50, sp)] [0; 0; 0] 100 in
   Qred (fst r + qsum (snd r)) = 150 /\ map Qred (snd r) = [8; 4; 2].
+Proof. vm_compute. split; reflexivity. Qed.
+
+(* beta = 0.3-like factors for two packets and one species: the table instance runs and obeys the bound *)
+Example ex_cdm_table :
+  let tbl := [[(1 # 8, 1 # 2)]; [(1 # 4, 1 # 4)]; [(0, 0)]] in
+  table_ok tbl = true
+  /\ map Qred (hd [] (cdm_run_each [cdm_par_table [1 # 2] [1 # 4] None tbl] 1 [[1000; 10; 0]]))
+     = [1000; 235 # 24; 5 # 96].
 Proof. vm_compute. split; reflexivity. Qed.
 
 Example ex_cdm_params : cdm_params_ok (1 # 10000000000) (3 # 10) 100000 (1 # 1000) = true
